@@ -520,6 +520,10 @@ func (m *Muxer) Handle(w http.ResponseWriter, r *http.Request) {
 }
 
 func (m *Muxer) createFirstSegment(nextDTS time.Duration, nextNTP time.Time) error {
+	// this is also called after a segment rotation that failed, while handlers are active
+	m.mutex.Lock()
+	defer m.mutex.Unlock()
+
 	for _, stream := range m.streams {
 		err := stream.createFirstSegment(nextDTS, nextNTP)
 		if err != nil {
